@@ -2,12 +2,13 @@
 # usage: run_seed.sh <patch.diff> <property id> [more ids...]
 # Applies the change to /repo, runs the given checks (quick), restores /repo.
 P="$1"; shift
-git -C /repo diff --quiet || { echo "/repo is dirty"; exit 2; }
-git -C /repo apply "$P" || { echo "patch does not apply"; exit 2; }
+V="${VERIF_ROOT:-/verif}"; R="${VERIF_REPO:-/repo}"
+git -C $R diff --quiet || { echo "$R is dirty"; exit 2; }
+git -C $R apply "$P" || { echo "patch does not apply"; exit 2; }
 for id in "$@"; do
-  /verif/bin/check $id --tier quick > /verif/.work/seed_$id.log 2>&1
+  $V/bin/check $id --tier quick > $V/.work/seed_$id.log 2>&1
   rc=$?
-  echo "  check $id: exit=$rc $(grep -c '^VIOLATION' /verif/.work/seed_$id.log) violation line(s); $(grep -m1 -A1 '^VIOLATION' /verif/.work/seed_$id.log | tail -1 | cut -c1-220)"
-  [ $rc = 2 ] && grep -m3 "^INCONCLUSIVE\|^UNSUPPORTED" /verif/.work/seed_$id.log | cut -c1-300
+  echo "  check $id: exit=$rc $(grep -c '^VIOLATION' $V/.work/seed_$id.log) violation line(s); $(grep -m1 -A1 '^VIOLATION' $V/.work/seed_$id.log | tail -1 | cut -c1-220)"
+  [ $rc = 2 ] && grep -m3 "^INCONCLUSIVE\|^UNSUPPORTED" $V/.work/seed_$id.log | cut -c1-300
 done
-git -C /repo checkout -- .
+git -C $R checkout -- .
